@@ -42,16 +42,18 @@ CHECKS = {
         text="Every exported method x every set partition of {receiver} U {same-typed pointer arguments} (plus multi-scalar shapes: receiver at each "
              "index, repeated points/scalars, n = 1..4; coordinate quadruples with repeated pointers; byte input aliasing an earlier Bytes result) is executed on "
              "operand values taken from a seeded history; the aliased call must equal, as values, the same call on private bit-copies, and every slot outside the "
-             "contractual write set (receiver; Swap's argument) must be bit-identical afterwards, including slice headers and input bytes. Partitions are enumerated "
-             "exhaustively, values are sampled.",
+             "contractual write set (receiver; Swap's argument) must be bit-identical afterwards, including the caller's whole byte buffer around an input window "
+             "and the whole backing arrays (spare capacity included) of the slices given to multi-scalar calls; term lists up to 1100 terms with the receiver in "
+             "the tail. Partitions are enumerated exhaustively, values are sampled.",
         note=TB),
     "C12": dict(
         cat="exploration", ref="DESIGN.md §4.5", engine="history-sim",
         technique="deterministic simulation: seeded histories with all fault kinds (rejected setters, misuse panics, adversarial imports, zero-value receivers); reachability invariant checked in big.Int after every step",
         text="The most general seeded histories (all operations, all fault kinds injected mid-history, reused and zero-value receivers, coordinate imports "
-             "of scaled/perturbed/zero quadruples in several limb forms); after every step every changed Point slot must be the guarded zero value (reachable only "
-             "by declaration or Set from one) or satisfy Z != 0, the curve equation and XY = ZT evaluated in big.Int on raw limbs. Found the two defects now "
-             "repaired (see known_findings.txt).",
+             "of scaled, sign-flipped, perturbed and zero quadruples in several limb forms, quadruples computed to satisfy exactly one of the two relations, "
+             "related operands); after every step every changed Point slot - and the receiver of every successful operation - must be the guarded zero value "
+             "(reachable only by declaration or Set from one) or satisfy Z != 0, the curve equation and XY = ZT evaluated in big.Int on raw limbs. Found the two "
+             "defects now repaired (see known_findings.txt).",
         note=TB),
     "C14": dict(
         cat="fault_enumeration", ref="DESIGN.md §4.6", engine="history-sim",
@@ -72,10 +74,12 @@ CHECKS = {
     "C18": dict(
         cat="exploration", ref="DESIGN.md §4.8", engine="task-scheduler",
         technique="deterministic simulation: seeded scheduler deciding every context switch at statement-level yield points injected by overlay; sequential-equivalence, exactly-once and race-detector oracles under the same schedules",
-        text="Real goroutines whose interleaving is decided by a seeded scheduler at statement granularity (yield points spliced into a build-time copy of "
-             "both packages; blocking of sync.Once/Mutex gated), from a cold process: results equal the sequential re-execution, first-use package-state "
-             "writes happen exactly as often as in a sequential cold run, package state is schedule-independent, no deadlock; the same schedules are replayed "
-             "under -race with a hand-off the detector cannot see.",
+        text="Real goroutines whose interleaving is decided by a seeded scheduler (random, PCT-style and sync-focused policies) at statement granularity and "
+             "between the atomic operations of one statement (yield points spliced into a build-time copy of both packages; blocking of sync.Once/Mutex/RWMutex "
+             "simulated incl. writer preference), 2-8 tasks running operations from the whole API from a cold process, default and purego builds: results equal "
+             "the sequential re-execution and a sequential cold reference process; argument-independent first-use code (statements that run cold but neither warm "
+             "nor on fresh arguments) is executed exactly as often as sequentially; a battery reading every entry of the lazily built tables gives the reference "
+             "results; shared arguments unchanged; no deadlock/livelock; the same schedules are replayed under -race with a hand-off the detector cannot see.",
         note=TB + " Schedules are sampled (PCT-style and random), not enumerated."),
     "C19": dict(
         cat="exploration", ref="DESIGN.md §4.9", engine="history-sim",
